@@ -22,6 +22,14 @@ func PlanFor(prop, tier string) (*Plan, error) {
 		p.Scenarios = moneyScenarios(tier)
 		p.Monitors = func() []Monitor { return []Monitor{NewC02()} }
 		p.Rule = "same exploration; every transition checks zero-sum, supply, deltas == emitted bank transfers, and the op's exact due (fee + reservation, settlement allocations/refunds/unsold/proceeds, instalments); non-trivial = distinct bids / modifications / settlements with a winner / instalment releases"
+	case "C07":
+		p.Scenarios = []*Scenario{S3(tier, false), S1a(tier, true), S2a(tier, false)}
+		if !quick {
+			p.Scenarios = append([]*Scenario{S3(tier, false), S3(tier, true)}, moneyScenarios(tier)...)
+		}
+		p.Monitors = func() []Monitor { return []Monitor{NewC07(), NewC07b()} }
+		p.Level = "model_checking"
+		p.Rule = "every explored state x every later timeline instant: the module's registered block hook must return nil and not panic; non-trivial = distinct (pre-state, block time) pairs in which the block changed the module state, plus distinct status vectors"
 	default:
 		return nil, fmt.Errorf("no plan for property %q", prop)
 	}
